@@ -213,6 +213,14 @@ def build(backend, tier):
         add(f"const:chain2:k{k1}:d{d}:{tn}", f"j.a().{tn}()", md, pre, col_types=TERMINALS[tn][3])
         add(f"const:first:k{k1}:d{d}:{tn}", f"ds.Select(lambda e: e.Roots('A').Select(lambda j: j.a()).First().{tn}())", md, pre, whole=True)
         add(f"const:ifexp:k{k1}:d{d}:{tn}", f"(j.a().{tn}() if j.a().t_int() > 10 else j.a().{tn}())", md + (term_md("W1", "t_int", d) if tn != "t_int" else []), pre)
+    # const in front of a type whose NAME starts with one of the letters of "const" (and a namespace-qualified one)
+    for alias, k1 in itertools.product(("tW1", "sW1", "cW1", "oW1", "nW1", "ns::tW1"), (0, 1)):
+        links = [{"name": "a", "k": k1, "wrap": 0}]
+        td = f"namespace ns {{ typedef W1 tW1; }}\n" if "::" in alias else f"typedef W1 {alias};\n"
+        pre = gen_prelude(backend, links).replace("class Root ", td + "class Root ", 1)
+        md = [mti("Root", "a", return_type=f"const {alias}" + "*" * k1)] + term_md(alias, "t_int", None)
+        add(f"const-name:{alias}:k{k1}", "j.a().t_int()", md, pre, col_types={"int"})
+        add(f"const-name-vector:{alias}:k{k1}", "ds.Select(lambda e: e.Roots('A').Select(lambda j: j.a().t_int()))", md, pre, col_types={"std::vector<int>"}, whole=True)
     # ---- two deref counts on one type: the wrapper's own method (deref 0) and the payload's (deref d)
     for k1, d in itertools.product((0, 1, 2), (1, 2)):
         links = [{"name": "a", "k": k1, "wrap": d}]
